@@ -1,9 +1,9 @@
 (* Props/C11.v — CP-APR (cp_apr mu / pdnr / pqnr). Only statements, `exact`, Print Assumptions.
    Partial by design (DESIGN §C11): division, normalisation scaling, |.|, max, Newton / L-BFGS directions are oracles with the
    stated sign contracts; descent / likelihood improvement is sampled, not proved. *)
-From Coq Require Import List Arith Bool Ring.
-From PV Require Import Base.Index Base.Sum Np.Array Model.Sparse Model.Repr Model.C14Nvecs Model.C11Apr
-                       Proofs.C14Sums Proofs.C11Mass Proofs.C11Proofs.
+From Coq Require Import List Arith Bool Ring ZArith.
+From PV Require Import Base.Index Base.Sum Np.Array Model.Sparse Model.Repr Model.C01Conv Model.C14Nvecs Model.C11Apr Model.C11Sparse
+                       Proofs.C14Sums Proofs.C11Mass Proofs.C11Proofs Proofs.C11Pairing.
 Import ListNotations.
 
 Section C11_ring.
@@ -26,9 +26,47 @@ Theorem C11_mass_factor0 : forall (w : list V) (A0 : list (list V)) (rest : list
   sum_over v0 vadd (allsubs (kshape (mkK w (A0 :: rest)))) (den_k v0 v1 vadd vmul (mkK w (A0 :: rest))) =
   sum_n v0 vadd (length w) (fun r => colsum V v0 vadd A0 r).
 Proof. exact (mass_factor0 V v0 v1 vadd vmul vsub vopp Vring). Qed.
+
+(* ... also when components are dead: a component whose mode-0 column sums to 0 (its weight was 0 when
+   Model.normalize(weight_factor=0, normtype=1) absorbed the weights) may have ANY column sums elsewhere — e.g. an all-zero
+   column in a mode k >= 1 whose weight normalize() set to 0.  This is the state in which seeded/C11-A breaks the shortcut. *)
+Theorem C11_mass_factor0_dead : forall (w : list V) (A0 : list (list V)) (rest : list (list (list V))),
+  (forall r, r < length w ->
+     nth r w v0 = v1 /\
+     ((forall A, In A rest -> colsum V v0 vadd A r = v1) \/ colsum V v0 vadd A0 r = v0)) ->
+  sum_over v0 vadd (allsubs (kshape (mkK w (A0 :: rest)))) (den_k v0 v1 vadd vmul (mkK w (A0 :: rest))) =
+  sum_n v0 vadd (length w) (fun r => colsum V v0 vadd A0 r).
+Proof. exact (mass_factor0_dead V v0 v1 vadd vmul vsub vopp Vring). Qed.
+
+(* tt_loglikelihood, dense branch: dX = Data.to_tenmat([1]).data, dM = Model.to_tenmat([1]).data, then a double loop over (i, j)
+   combining dX[i,j] with dM[i,j] (phi = "skip zero counts, else x * log m"): the double loop is the sum over ALL subscripts of
+   phi (data, model) — each subscript exactly once, data and model values paired at the same subscript (C01's to_tenmat theorem) *)
+Theorem C11_objective_pairing : forall (X M : dense V) (phi : V -> V -> V),
+  wf_dense X -> wf_dense M -> dshape M = dshape X -> 1 < length (dshape X) ->
+  exists MX MM R C,
+    to_tenmat v0 X [1] (setdiff_modes (length (dshape X)) [1]) = Some MX /\
+    to_tenmat v0 M [1] (setdiff_modes (length (dshape X)) [1]) = Some MM /\
+    dshape (tm_data MX) = [R; C] /\ dshape (tm_data MM) = [R; C] /\
+    sum_n v0 vadd R (fun i => sum_n v0 vadd C (fun j => phi (den_dense v0 (tm_data MX) [i; j]) (den_dense v0 (tm_data MM) [i; j]))) =
+    sum_over v0 vadd (allsubs (dshape X)) (fun s => phi (den_dense v0 X s) (den_dense v0 M s)).
+Proof. exact (objective_pairing_exists V v0 v1 vadd vmul vsub vopp Vring). Qed.
+
+(* calculate_pi / calculate_phi, sparse branch (Pi rows per stored nonzero, v[k] from row xsubs[k] of the factor, accumarray over the
+   mode-n subscripts) = the dense definition (Model/C11Apr.v calc_phi, the one C11_mu_nonneg is about) on the tensor the sparse
+   holder denotes — any stored order, any division oracle that maps a zero count to zero *)
+Variables (vdivmax : V -> V -> V) (isz : V -> bool).
+Theorem C11_phi_sparse : forall (S : sparse V) (n : nat) (st : state) (a r : nat),
+  wf_sp isz S -> n < length (sshape S) -> (forall v, vdivmax v0 v = v0) ->
+  a < length (fac st n) -> length (fac st n) = nth n (sshape S) 0 -> r < rankof st ->
+  mget v0 (calc_phi_sp_code v0 v1 vadd vmul vdivmax S n st) a r =
+  mget v0 (calc_phi v0 v1 vadd vmul vdivmax (full v0 S) n st) a r.
+Proof. exact (calc_phi_sp_code_full V v0 v1 vadd vmul vsub vopp Vring vdivmax isz). Qed.
 End C11_ring.
 Print Assumptions C11_mass_identity.
 Print Assumptions C11_mass_factor0.
+Print Assumptions C11_mass_factor0_dead.
+Print Assumptions C11_objective_pairing.
+Print Assumptions C11_phi_sparse.
 
 Section C11_order.
 (* an ordered commutative ring: only the consequences of the order axioms that are used are assumed *)
@@ -98,3 +136,33 @@ Example C11_example_mass :
   sum_over 0 Nat.add (allsubs (kshape K)) (den_k 0 1 Nat.add Nat.mul K) = 20 /\
   sum_n 0 Nat.add (krank K) (fun r => nth r (kweights K) 0 * prodv 1 Nat.mul (map (fun A => colsum nat 0 Nat.add A r) (kfactors K))) = 20.
 Proof. split; reflexivity. Qed.
+
+Example C11_example_pairing :
+  let X := mkDense [2; 3; 2] [1; 0; 3; 4; 0; 6; 7; 8; 0; 10; 11; 12] in
+  let M := mkDense [2; 3; 2] [2; 3; 5; 7; 11; 13; 17; 19; 23; 29; 31; 37] in
+  let phi := fun x m : nat => if Nat.eqb x 0 then 0 else x * (m + 7) in
+  match to_tenmat 0 X [1] (setdiff_modes 3 [1]), to_tenmat 0 M [1] (setdiff_modes 3 [1]) with
+  | Some MX, Some MM =>
+      dshape (tm_data MX) = [3; 4] /\
+      ddata (tm_data MX) = [1; 3; 0; 0; 4; 6; 7; 0; 11; 8; 10; 12] /\
+      ddata (tm_data MM) = [2; 5; 11; 3; 7; 13; 17; 23; 31; 19; 29; 37] /\
+      sum_n 0 Nat.add 3 (fun i => sum_n 0 Nat.add 4 (fun j => phi (den_dense 0 (tm_data MX) [i; j]) (den_dense 0 (tm_data MM) [i; j]))) =
+      sum_over 0 Nat.add (allsubs (dshape X)) (fun s => phi (den_dense 0 X s) (den_dense 0 M s)) /\
+      sum_over 0 Nat.add (allsubs (dshape X)) (fun s => phi (den_dense 0 X s) (den_dense 0 M s)) = 1903
+  | _, _ => False end.
+Proof. exact objective_pairing_ex. Qed.
+Example C11_example_dead :
+  let w := [1; 1]%Z in
+  let A0 := [[2; 0]; [3; 0]]%Z in
+  let A1 := [[1; 5]; [0; 7]; [0; 0]]%Z in
+  sum_over 0%Z Z.add (allsubs (kshape (mkK w [A0; A1]))) (den_k 0%Z 1%Z Z.add Z.mul (mkK w [A0; A1])) = 5%Z /\
+  sum_n 0%Z Z.add (length w) (fun r => colsum Z 0%Z Z.add A0 r) = 5%Z.
+Proof. exact mass_factor0_dead_ex. Qed.
+Example C11_example_phi_sparse :
+  let S := mkSp [2; 3; 2] [[0; 0; 0]; [1; 2; 0]; [0; 1; 1]; [1; 2; 1]] [8; 18; 6; 27]%Z in
+  let st := mkSt [1; 1]%Z [[[1; 2]; [3; 1]]; [[1; 1]; [2; 0]; [1; 3]]; [[2; 1]; [1; 2]]]%Z [] [] true in
+  let dm := fun x v : Z => Z.div x (Z.max v 1) in
+  calc_phi_sp_code 0%Z 1%Z Z.add Z.mul dm S 0 st = [[10; 2]; [7; 24]]%Z /\
+  calc_phi_sp_code 0%Z 1%Z Z.add Z.mul dm S 1 st = [[4; 4]; [3; 12]; [21; 8]]%Z /\
+  calc_phi_sp_code 0%Z 1%Z Z.add Z.mul dm S 2 st = [[8; 10]; [15; 9]]%Z.
+Proof. exact calc_phi_sp_ex_value. Qed.
